@@ -123,3 +123,8 @@ package measure
 //@   ensures  shifted-ts: forall k :: i <= k && k < len(d.timestamps) ==> d.timestamps[k] == old(d.timestamps[k+1])
 //@   ensures  shifted-ver: forall k :: i <= k && k < len(d.versions) ==> d.versions[k] == old(d.versions[k+1])
 //@   ensures  shifted-sid: forall k :: i <= k && k < len(d.seriesIDs) ==> d.seriesIDs[k] == old(d.seriesIDs[k+1])
+//@   ensures  columns-aligned: i < old(len(d.timestamps)) ==> len(d.tagFamilies) == len(d.timestamps) && (old(len(d.fields)) == 0 || len(d.fields) == len(d.timestamps))
+//@   ensures  before-tags: forall k :: 0 <= k && k < i && k < len(d.tagFamilies) ==> samehdr(d.tagFamilies[k], old(d.tagFamilies[k]))
+//@   ensures  shifted-tags: forall k :: i <= k && k < len(d.tagFamilies) ==> samehdr(d.tagFamilies[k], old(d.tagFamilies[k+1]))
+//@   ensures  before-fields: forall k :: 0 <= k && k < i && k < len(d.fields) ==> d.fields[k] == old(d.fields[k])
+//@   ensures  shifted-fields: forall k :: i <= k && k < len(d.fields) ==> d.fields[k] == old(d.fields[k+1])
